@@ -272,6 +272,11 @@ def run(P, R, L):
     K.role4_counters(P, R, L)
     K.ord8c_recovered_sequence(P, R, L)
     R.clause("ORD-8c", "recovery restores the sequence of the last operation of the last replayed batch")
+    R.clause("OWN-9", "files are created truncating except log re-use: a re-issued file number never inherits a crashed predecessor's bytes")
+    K.own9_create_mode(P, R, L)
+    R.clause("GRD-5", "a WAL is queued for deletion only when it is older than the WAL recorded in the manifest and is not the previous WAL")
+    from .c11 import grd5
+    grd5(P, R, L)
     R.clause("TS-1", "recovery reads the WAL through LogReader::read_record: a crash between two fragments of a record must not make "
              "later records unreadable or invent records (reassembly typestate); a torn tail is end-of-log (GRD-6)")
     K.ts1(P, R, L)
